@@ -93,10 +93,12 @@ CHECKS['C04'] = dict(
     text='Hypothesis generates programs; the harness enumerates every single placement of every tolerated fault kind at '
          'every step (plus sampled pairs, disabled/skipped variants) and compares the decorated run with the undecorated '
          'twin built from the same description: operation outcome, per-call-site object identity with what the wrapped '
-         'body produced, body journal, cassette untouched when disabled. A threaded part provokes a discard while other '
-         'workers are inside intercepted bodies (rendezvous).',
-    note='Twin and decorated class are built from one description with identity vs real decorators. Thread '
-         'interleavings are OS-given around a rendezvous (no deterministic scheduler for the recorder; see DESIGN.md).',
+         'body produced, body journal, cassette untouched when disabled. Threaded parts provoke a discard / forced sampling '
+         'while other workers are inside intercepted bodies: with OS threads around a rendezvous, and under the '
+         'deterministic scheduler at line granularity of tape_recorder.py (PCT and seeded random schedules).',
+    note='Twin and decorated class are built from one description with identity vs real decorators. Scheduled part: '
+         'sampled schedules (no exhaustive enumeration for the recorder); the recorder lock is made cooperative '
+         'harness-side.',
     technique='Hypothesis-generated programs x exhaustive single-fault placement; differential against an undecorated twin')
 CHECKS['C05'] = dict(
     engine='progsim', category='fault_enumeration', design='DESIGN.md 3 C05',
